@@ -47,7 +47,7 @@ def _has_prebuilt(node):
     return False
 
 
-def swallowed_by(root, a, b):
+def swallowed_by(root, a, b, same=()):
     """A decoded result of the top-level search that covers [a,b) AND text beyond it on at least one side: the
     indicator / blob together with neighbouring text satisfied another documented decoding, i.e. the surroundings
     were not neutral for it (generator domain). Returns the node or None."""
@@ -57,6 +57,8 @@ def swallowed_by(root, a, b):
         s, e = base + node.start, base + node.end
         if s <= a and b <= e and (s < a or b < e):
             if not is_context(node):
+                if (node.type, node.obfuscation) in same or node.type in same:
+                    return None  # the expected decoding itself, with a wrong span: that is a violation, not interference
                 return node
             stack.extend((c, s) for c in node.children)
     return None
@@ -80,7 +82,15 @@ def judge_stack(rec, k, md, report, counts, fresh_md=None):
     layers = rec["layers"]
     L = len(layers)
     # preconditions, by scanning
-    if not neutral(md, rec["prefix"] + b" " + rec["suffix"]):
+    if rec.get("wrap"):
+        # the blob sits inside an undecoded context (e.g. CreateObject( ... )): the surroundings may contain results, but
+        # none of them decoded
+        sc = tree.canon(md.scan(rec["prefix"] + b"zq" + rec["suffix"]))
+        if not fr.all_identity(sc) or not all(fr.in_domain(x) for x in _all(sc)):
+            counts["discarded:surroundings-not-neutral"] = counts.get("discarded:surroundings-not-neutral", 0) + 1
+            return False
+        counts["stacks_inside_context"] = counts.get("stacks_inside_context", 0) + 1
+    elif not neutral(md, rec["prefix"] + b" " + rec["suffix"]):
         counts["discarded:surroundings-not-neutral"] = counts.get("discarded:surroundings-not-neutral", 0) + 1
         return False
     pscan = md.scan(rec["payload"])
@@ -105,7 +115,7 @@ def judge_stack(rec, k, md, report, counts, fresh_md=None):
             break
         node, why = find_layer(parent, lay, off, length)
         if node is None and i == 0:
-            other = swallowed_by(root, off, off + length)
+            other = swallowed_by(root, off, off + length, same=((lay["type"], lay["label"]),))
             if other is not None:
                 counts["discarded:blob-plus-neighbour-text-is-another-decoding"] = counts.get("discarded:blob-plus-neighbour-text-is-another-decoding", 0) + 1
                 counts["stacks_judged"] -= 1
